@@ -450,6 +450,13 @@ func genProp04(r *vh.Rand, name string, env EnumEnv) genDecl {
 // lib/j5schema wellKnownStringPatterns
 var wellKnownPatterns = []string{`^\d{4}-\d{2}-\d{2}$`, `^\d(.?\d)?$`, "^[0-9A-Za-z]{22}$"}
 
+// propName: property names as j5s writes them (lowerCamel), with the shapes
+// strcase.ToSnake treats differently: a capital after a lower-case letter, digits,
+// adjacent capitals, an underscore; the index keeps the proto names distinct
+func propName(r *vh.Rand, i int) string {
+	return fmt.Sprintf(vh.Pick(r, []string{"f%d", "f%d", "fooBar%d", "x%dY", "aBC%d", "foo_bar%d", "f%dId", "someURL%d"}), i)
+}
+
 var descWords = []string{"the", "quick", "id", "of", "a", "thing", "x2", "value.", "(unit)"}
 
 func genDesc(r *vh.Rand) string {
